@@ -75,12 +75,23 @@ def gen_of_text(text):
     return int(m.group(1)) if m else -1
 
 
-def script_text(gen, imports):
+# what an app script may do to the dict pyscript hands it as `pyscript.app_config` while it loads (seeded change C10_8:
+# the stored configuration must not be the object the script mutates, or every later reload sees a "changed" app)
+MUTATIONS = ['pyscript.app_config.setdefault("interval", 60)',
+             'pyscript.app_config["extra"] = 1',
+             'pyscript.app_config.pop("k", None)',
+             'pyscript.app_config.setdefault("sub", {})["n"] = 1']
+
+
+def script_text(gen, imports, mut=None):
     if gen in EMPTY_ID:
         return EMPTY_TEXT[EMPTY_ID.index(gen)]
     lines = [f"rec('load', pyscript.get_global_ctx(), {gen})"]
     for level, mod in imports:
         lines.append(f"import {mod}" if level == 0 else f"from {'.' * level} import {mod}")
+    if mut is not None:
+        # only configured apps with a non-empty configuration have the variable
+        lines += ["try:", "    " + MUTATIONS[mut % len(MUTATIONS)], "except NameError:", "    pass"]
     return "\n".join(lines) + "\n"
 
 
@@ -158,6 +169,8 @@ class Sim:
                 self.clock += 1
                 mt = self.clock
             self.disk[op["rel"]] = {"gen": g, "mtime": mt, "imports": op["imports"]}
+            if op.get("mut") is not None and g not in EMPTY_ID:
+                self.disk[op["rel"]]["mut"] = op["mut"]
             self.prog[g] = op["imports"]
             self.hist.setdefault(op["rel"], []).append(dict(self.disk[op["rel"]]))
             self.ever.add(op["rel"])
@@ -165,7 +178,7 @@ class Sim:
                 p = os.path.join(root, op["rel"])
                 os.makedirs(os.path.dirname(p), exist_ok=True)
                 with open(p, "w") as f:
-                    f.write(script_text(g, op["imports"]))
+                    f.write(script_text(g, op["imports"], self.disk[op["rel"]].get("mut")))
                 os.utime(p, (mt, mt))
         elif k == "restore":
             # put an earlier version of the file back: identical content, with its old mtime ("same") or a new one -
@@ -181,7 +194,7 @@ class Sim:
                     p = os.path.join(root, op["rel"])
                     os.makedirs(os.path.dirname(p), exist_ok=True)
                     with open(p, "w") as f:
-                        f.write(script_text(v["gen"], v["imports"]))
+                        f.write(script_text(v["gen"], v["imports"], v.get("mut")))
                     os.utime(p, (v["mtime"], v["mtime"]))
         elif k == "mkdir":
             if root:
@@ -254,8 +267,15 @@ def gen_tree_ops(rng, sibrel):
         if rng.random() < 0.08 and not sibrel:
             ops.append({"op": "write", "rel": rel, "imports": [], "empty": rng.choice([0, 0, 1, 2])})
         else:
-            ops.append({"op": "write", "rel": rel, "imports": rand_imports(rng, rel, sibrel, set(files))})
+            ops.append(with_mut(rng, {"op": "write", "rel": rel, "imports": rand_imports(rng, rel, sibrel, set(files))}))
     return ops
+
+
+def with_mut(rng, op):
+    """app scripts: 40 % fill in / change / drop a setting of their pyscript.app_config while they load"""
+    if op["rel"].startswith("apps/") and rng.random() < 0.4:
+        op["mut"] = rng.randrange(len(MUTATIONS))
+    return op
 
 
 def gen_edit(rng, sim, sibrel):
@@ -271,8 +291,8 @@ def gen_edit(rng, sim, sibrel):
         return {"op": "mkdir", "rel": rng.choice(EMPTY_DIRS)}
     if r < 0.30 and present:
         rel = rng.choice(present)
-        return {"op": "write", "rel": rel, "imports": rand_imports(rng, rel, sibrel, set(present))
-                if rng.random() < 0.5 else sim.disk[rel]["imports"], "keep_mtime": rng.random() < 0.15}
+        return with_mut(rng, {"op": "write", "rel": rel, "imports": rand_imports(rng, rel, sibrel, set(present))
+                              if rng.random() < 0.5 else sim.disk[rel]["imports"], "keep_mtime": rng.random() < 0.15})
     if r < 0.42 and present:
         return {"op": "touch", "rel": rng.choice(present)}
     if r < 0.56 and present:
@@ -281,7 +301,7 @@ def gen_edit(rng, sim, sibrel):
         absent = [f for f in ALL_FILES if f not in sim.disk]
         if absent:
             rel = rng.choice(absent)
-            return {"op": "write", "rel": rel, "imports": rand_imports(rng, rel, sibrel, set(present))}
+            return with_mut(rng, {"op": "write", "rel": rel, "imports": rand_imports(rng, rel, sibrel, set(present))})
     if r < 0.86:
         a, b = rng.choice(RENAMES)
         if rng.random() < 0.5 or not any(x == a or x.startswith(a + "/") for x in sim.disk):
@@ -447,6 +467,18 @@ def fixed_cases():
         {"edits": [], "only": None, "fresh": True},
         {"edits": [W("b.py")], "only": None},
         {"edits": [W("a.py", (0, "m"))], "only": None, "fresh": True},
+        {"edits": [], "only": None}]})
+    # app scripts that mutate the dict they get as pyscript.app_config (setdefault / item assignment / pop / nested):
+    # reloads without change and reloads after an unrelated change must leave them alone; a real change of the yaml
+    # entry still reloads them
+    out.append({"family": "fixed", "apps0": {"x": 1, "y": 2, "x2": 3, "z": CFG_INNER_NONE}, "steps": [
+        {"edits": [dict(W("apps/x/__init__.py", (1, "h")), mut=0), dict(W("apps/x/h.py"), mut=1), dict(W("apps/y.py"), mut=2),
+                   dict(W("apps/x2.py"), mut=3), dict(W("apps/z/__init__.py"), mut=1), W("a.py")], "only": None},
+        {"edits": [], "only": None}, {"edits": [], "only": None},
+        {"edits": [W("a.py")], "only": None},
+        {"edits": [{"op": "touch", "rel": "apps/x/h.py"}], "only": None},
+        {"edits": [], "only": None},
+        {"edits": [{"op": "cfg", "app": "y", "val": 3}], "only": None},
         {"edits": [], "only": None}]})
     # package form replaces module form (and back)
     out.append({"family": "fixed", "apps0": {"y": 1}, "steps": [
